@@ -606,6 +606,19 @@ func run(s *core.Shard) {
 			n = k
 		}
 	}
+	for i := 0; i < 2; i++ {
+		if !s.Mine(n + 158 + i) {
+			continue
+		}
+		if !s.Begin(fmt.Sprintf("null-base/%d", i)) {
+			continue
+		}
+		c := nullBase(i)
+		if judge(s, c) {
+			s.Cover("placement", c.Shape)
+			s.Nontrivial(c.Ext.Key())
+		}
+	}
 	for i := 0; i < 6; i++ {
 		if !s.Mine(n + 152 + i) {
 			continue
